@@ -62,3 +62,25 @@ def str_moves(t, filler="a"):
             if c not in seen and c != t:
                 seen.add(c)
                 yield c
+
+
+def minimize_batch(w, candidates, first_failing, budget=60, width=64):
+    """Like minimize, but candidates are judged in batches: first_failing(list) returns the index of the
+    first failing candidate of the list (or None).  Lets an external oracle judge many candidates at once."""
+    rounds = 0
+    progress = True
+    while progress and rounds < budget:
+        progress = False
+        batch = []
+        for c in candidates(w):
+            batch.append(c)
+            if len(batch) >= width:
+                break
+        if not batch:
+            break
+        rounds += 1
+        i = first_failing(batch)
+        if i is not None:
+            w = batch[i]
+            progress = True
+    return w
